@@ -44,7 +44,7 @@ Proof.
     + rewrite upd_same in Hr'. inversion Hr'; subst r'. cbn. congruence.
     + rewrite upd_other in Hr' by auto. congruence.
   - left. unfold withdraw_reward in H. guards H. inversion H; subst; clear H. proj. congruence.
-  - left. unfold unbond in H. guards H. inversion H; subst; clear H. proj.
+  - left. unfold unbond, unbond_gen in H. guards H. inversion H; subst; clear H. proj.
     destruct (Z.eq_dec a a0) as [->|N]; [rewrite upd_same in Hr'; discriminate|]. rewrite upd_other in Hr' by auto. congruence.
   - left. destruct (gov_set_spec _ _ _ _ I (conj K SL) H) as (_ & _ & _ & _ & _ & E & _).
     destruct (E _ _ _ Hr Hr') as [->| ->]; reflexivity.
@@ -66,40 +66,50 @@ Proof.
     destruct (slash_rel_core _ _ Ra) as (_ & _ & _ & A & _). exact A.
 Qed.
 
-(* what the withdrawal does then: the penalty is computed from the RECORDED stake; when a staking-side slash has left
-   less than that at the delegate address, UnbondedOracle refuses — in every state, so for ever once nothing more
-   can mature (finding C13-3) *)
-Theorem unbond_refused_when_penalty_exceeds_balance : forall s a r, recs s a = Some r ->
+(* what the withdrawal does then.  The penalty is computed from the RECORDED stake.  In the REFUSING variant of the
+   penalty rule (`if balance < penalty { return error }`, finding C13-3) a staking-side slash that left less than the
+   penalty at the delegate address makes UnbondedOracle refuse — in every state, so for ever once nothing more can
+   mature; in the CAPPED variant (the C13-3 patch) the oracle receives max(0, matured - penalty) and min(penalty,
+   matured) is burned ([unbond_capped_pays]).  Both are stated about the explicit variants; which one the checked
+   tree has is the generated fact [unbond_penalty_capped]. *)
+Theorem unbond_refused_when_penalty_exceeds_balance : forall ne s a r, recs s a = Some r ->
   0 < slash_amount r (p_fraction (prm s)) -> bal_d s a < slash_amount r (p_fraction (prm s)) ->
-  forall s', unbond s a <> Ok s'.
-Proof.
-  intros s a r Hr P L s' U. destruct (unbond_spec _ _ _ U) as (r0 & Hr0 & _ & _ & _ & _ & G & _).
-  assert (r0 = r) by congruence. subst r0. specialize (G P). lia.
-Qed.
+  forall s', unbond_gen ne false s a <> Ok s'.
+Proof. exact unbond_refusing_variant_refuses. Qed.
 
 (* the life cycle with slash fraction 1: oracle 3 (on validator 0) misses oracle set 1 and is penalised (penalty = its
    whole recorded stake), staking slashes validator 0 by 5 %, governance removes oracle 3, the unbonding matures:
-   9500 FX + rewards sit at the delegate address, the penalty is 10000 FX, the withdrawal is refused *)
+   9500 FX + rewards sit at the delegate address, the penalty is 10000 FX.  Refusing variant: the withdrawal is
+   refused; capped variant: it is accepted, the oracle receives nothing, 9500 FX + 9 are burned, records deleted *)
 Definition w_init1 : state := init 2 10 1814400 w_vals (mkParams (FX 10000) 10 dec_one 2).
 Definition w_J : list op :=
   w_setup ++ confirm_all 1 3 ++ [EndBlock 10 15 false; EndBlock 15 20 false; EndBlock 20 25 false] ++ confirm_all 2 3 ++
   [SlashVal 0 (FX 1505); GovSet [0; 1; 2; 4; 5; 6] [(3, 9)]; EndBlock 25 30 false; EndBlock 1814600 1814605 false].
 
 Theorem penalty_exceeds_remaining_refuted : exists ops a r,
-  let s := run w_init1 ops in
+  let s := run_with false false w_init1 ops in
   recs s a = Some r /\ ~ In a (proposal s) /\ o_online r = false /\ o_slash r = 1 /\
   (forall u, In u (ubds s) -> u_orc u <> a) /\ deleg s a (o_val r) = 0 /\
   o_amount r = FX 10000 /\ slash_amount r (p_fraction (prm s)) = FX 10000 /\ bal_d s a = FX 9500 + 9 /\
-  step s (Unbond a) = Err e_invalid.
+  step_with false false s (Unbond a) = Err e_invalid.
 Proof.
   exists w_J, 3, (mkOracle 3 103 203 (FX 10000) 2 false 0 1). cbv zeta.
   split; [vm_compute; reflexivity|].
   split; [vm_compute; intuition discriminate|].
   split; [reflexivity|]. split; [reflexivity|].
-  split; [assert (E : ubds (run w_init1 w_J) = []) by (vm_compute; reflexivity); rewrite E; intros u []|].
+  split; [assert (E : ubds (run_with false false w_init1 w_J) = []) by (vm_compute; reflexivity); rewrite E; intros u []|].
   split; [vm_compute; reflexivity|]. split; [reflexivity|].
   split; vm_compute; try reflexivity. split; reflexivity.
 Qed.
+
+Example penalty_capped_life_cycle :
+  let s := run_with false true w_init1 w_J in
+  let s' := exec_with false true s (Unbond 3) in
+  is_ok (step_with false true s (Unbond 3)) = true /\ bal_d s 3 = FX 9500 + 9 /\
+  bal_o s' 3 = bal_o s 3 /\ burned s' = burned s + (FX 9500 + 9) /\ bal_d s' 3 = 0 /\
+  recs s' 3 = None /\ by_bridger s' 103 = None /\ by_ext s' 203 = None /\
+  step_with false true s' (Unbond 3) = Err e_notfound.
+Proof. vm_compute. repeat split; reflexivity. Qed.
 
 (* a past-infraction slash on the model: validator 0 slashed 5 % for an infraction at height 3; oracle 3 re-delegated
    from validator 0 to validator 2 at height 3 and oracle 0 was removed at height 3: the unbonding entry of oracle 0
